@@ -10,8 +10,10 @@ open HdVerif HdVerif.SRItems HdVerif.SRItemsLemmas HdVerif.SRItemsArgs
 
 /-! ## IMAGE -/
 
+/-- an argument the constructor refuses: an empty sequence, or numbers with a fractional part -/
 def emptySeq : Option Nums → Prop
   | some (.seq []) => True
+  | some (.fractional _ _) => True
   | _ => False
 
 instance : DecidablePred emptySeq := fun a => by
@@ -23,28 +25,35 @@ instance : DecidablePred emptySeq := fun a => by
     | seq l => cases l with
       | nil => exact isTrue (by simp [emptySeq])
       | cons _ _ => exact isFalse (by simp [emptySeq])
+    | fractional _ _ => exact isTrue (by simp [emptySeq])
 
 theorem framesCheck_some (x : Nums) :
-    Gen.imageFramesCheck true x.nAxes x.len = (if emptySeq (some x) then .error .value else .ok 1) := by
+    Gen.imageFramesCheck true x.nAxes x.len x.isFractional = (if emptySeq (some x) then .error .value else .ok 1) := by
   cases x with
-  | scalar v => simp [Gen.imageFramesCheck, Nums.nAxes, Nums.len, emptySeq]
+  | scalar v => simp [Gen.imageFramesCheck, Nums.nAxes, Nums.len, Nums.isFractional, emptySeq]
   | seq l =>
     cases l with
-    | nil => simp [Gen.imageFramesCheck, Nums.nAxes, Nums.len, emptySeq]
+    | nil => simp [Gen.imageFramesCheck, Nums.nAxes, Nums.len, Nums.isFractional, emptySeq]
     | cons a r =>
-      simp [Gen.imageFramesCheck, Nums.nAxes, Nums.len, emptySeq]
+      simp [Gen.imageFramesCheck, Nums.nAxes, Nums.len, Nums.isFractional, emptySeq]
       omega
+  | fractional b n =>
+    simp only [Gen.imageFramesCheck, Nums.nAxes, Nums.len, Nums.isFractional, emptySeq, if_true]
+    cases b <;> by_cases h : ((n : Int) == 0) = true <;> simp [h]
 
 theorem segmentsCheck_some (x : Nums) :
-    Gen.imageSegmentsCheck true x.nAxes x.len = (if emptySeq (some x) then .error .value else .ok 1) := by
+    Gen.imageSegmentsCheck true x.nAxes x.len x.isFractional = (if emptySeq (some x) then .error .value else .ok 1) := by
   cases x with
-  | scalar v => simp [Gen.imageSegmentsCheck, Nums.nAxes, Nums.len, emptySeq]
+  | scalar v => simp [Gen.imageSegmentsCheck, Nums.nAxes, Nums.len, Nums.isFractional, emptySeq]
   | seq l =>
     cases l with
-    | nil => simp [Gen.imageSegmentsCheck, Nums.nAxes, Nums.len, emptySeq]
+    | nil => simp [Gen.imageSegmentsCheck, Nums.nAxes, Nums.len, Nums.isFractional, emptySeq]
     | cons a r =>
-      simp [Gen.imageSegmentsCheck, Nums.nAxes, Nums.len, emptySeq]
+      simp [Gen.imageSegmentsCheck, Nums.nAxes, Nums.len, Nums.isFractional, emptySeq]
       omega
+  | fractional b n =>
+    simp only [Gen.imageSegmentsCheck, Nums.nAxes, Nums.len, Nums.isFractional, emptySeq, if_true]
+    cases b <;> by_cases h : ((n : Int) == 0) = true <;> simp [h]
 
 theorem numsArg_frames (a : Option Nums) :
     numsArg Gen.imageFramesCheck a = (if emptySeq a then .error .value else .ok (a.map Nums.values)) := by
@@ -145,7 +154,7 @@ theorem length_ne_zero_beq (n : Nat) (h : n ≠ 0) : ((n : Int) == 0) = false :=
 theorem mkWaveformA_eq (name : Coded) (c i : String) (l : List (List Int)) (ps : List (Int × Int)) (rel : Option String)
     (hne : l ≠ []) (hp : allPairs l = some ps) :
     mkWaveformA name c i (some l) rel = mkWaveform name c i (some ps) rel := by
-  unfold mkWaveformA
+  unfold mkWaveformA mkWaveformAF
   cases hb : base .waveform name rel with
   | error e => simp only [mkWaveform, withAttrs_base_err hb]
   | ok a =>
@@ -155,7 +164,7 @@ theorem mkWaveformA_eq (name : Coded) (c i : String) (l : List (List Int)) (ps :
 
 theorem mkWaveformA_none (name : Coded) (c i : String) (rel : Option String) :
     mkWaveformA name c i none rel = mkWaveform name c i none rel := by
-  unfold mkWaveformA
+  unfold mkWaveformA mkWaveformAF
   cases hb : base .waveform name rel with
   | error e => simp only [mkWaveform, withAttrs_base_err hb]
   | ok a => simp [Gen.waveformChannelsCheck]
@@ -164,7 +173,7 @@ theorem mkWaveformA_none (name : Coded) (c i : String) (rel : Option String) :
 theorem mkWaveformA_refuses (name : Coded) (c i : String) (l : List (List Int)) (rel : Option String)
     (h : l = [] ∨ ∃ p ∈ l, p.length ≠ 2) : ∀ it, mkWaveformA name c i (some l) rel ≠ .ok it := by
   intro it hit
-  unfold mkWaveformA at hit
+  unfold mkWaveformA mkWaveformAF at hit
   cases hb : base .waveform name rel with
   | error e => simp only [hb] at hit; cases hit
   | ok a =>
@@ -175,6 +184,18 @@ theorem mkWaveformA_refuses (name : Coded) (c i : String) (l : List (List Int)) 
       have h2 : ((l.length : Int) == 0) = false := length_ne_zero_beq _ (by
         intro h0; have := List.length_eq_zero_iff.mp h0; subst this; cases hp)
       simp [Gen.waveformChannelsCheck, hany, h2] at hit
+
+/-- channel entries with a fractional part are refused -/
+theorem mkWaveformAF_fractional (name : Coded) (c i : String) (l : List (List Int)) (rel : Option String) :
+    ∀ it, mkWaveformAF name c i (some l) true rel ≠ .ok it := by
+  intro it hit
+  unfold mkWaveformAF at hit
+  cases hb : base .waveform name rel with
+  | error e => simp only [hb] at hit; cases hit
+  | ok a =>
+    simp only [hb] at hit
+    by_cases h1 : ((l.length : Int) == 0) = true <;> by_cases h2 : l.any (fun p => p.length != 2) = true <;>
+      simp [Gen.waveformChannelsCheck, h1, h2] at hit
 
 /-! ## TCOORD -/
 
@@ -191,7 +212,7 @@ theorem mkTcoord_enum_err {ds name rt arg rel a} (hb : base .tcoord name rel = .
 theorem mkTcoordA_positions (ds : Rat → Rat) (name : Coded) (rt : String) (l : List Int) (off : Option (List Rat))
     (dts : Option (List String)) (rel : Option String) (hne : l ≠ []) :
     mkTcoordA ds name rt (some l) off dts rel = mkTcoord ds name rt (some (.positions l)) rel := by
-  unfold mkTcoordA
+  unfold mkTcoordA mkTcoordAF
   cases hb : base .tcoord name rel with
   | error e => simp only [mkTcoord_base_err hb]
   | ok a =>
@@ -205,7 +226,7 @@ theorem mkTcoordA_positions (ds : Rat → Rat) (name : Coded) (rt : String) (l :
 theorem mkTcoordA_offsets (ds : Rat → Rat) (name : Coded) (rt : String) (l : List Rat) (dts : Option (List String))
     (rel : Option String) (hne : l ≠ []) :
     mkTcoordA ds name rt none (some l) dts rel = mkTcoord ds name rt (some (.offsets l)) rel := by
-  unfold mkTcoordA
+  unfold mkTcoordA mkTcoordAF
   cases hb : base .tcoord name rel with
   | error e => simp only [mkTcoord_base_err hb]
   | ok a =>
@@ -218,7 +239,7 @@ theorem mkTcoordA_offsets (ds : Rat → Rat) (name : Coded) (rt : String) (l : L
 /-- only date times given and not empty -/
 theorem mkTcoordA_datetimes (ds : Rat → Rat) (name : Coded) (rt : String) (l : List String) (rel : Option String) (hne : l ≠ []) :
     mkTcoordA ds name rt none none (some l) rel = mkTcoord ds name rt (some (.datetimes l)) rel := by
-  unfold mkTcoordA
+  unfold mkTcoordA mkTcoordAF
   cases hb : base .tcoord name rel with
   | error e => simp only [mkTcoord_base_err hb]
   | ok a =>
@@ -236,7 +257,7 @@ theorem mkTcoordA_refuses (ds : Rat → Rat) (name : Coded) (rt : String) (pos :
          (pos = none ∧ off = none ∧ dts = none)) :
     ∀ it, mkTcoordA ds name rt pos off dts rel ≠ .ok it := by
   intro it hit
-  unfold mkTcoordA at hit
+  unfold mkTcoordA mkTcoordAF at hit
   cases hb : base .tcoord name rel with
   | error e => simp only [hb] at hit; cases hit
   | ok a =>
@@ -249,6 +270,20 @@ theorem mkTcoordA_refuses (ds : Rat → Rat) (name : Coded) (rt : String) (pos :
       · subst h1; subst h2; simp [hr, Gen.tcoordArgCheck] at hit
       · subst h1; subst h2; subst h3; simp [hr, Gen.tcoordArgCheck] at hit
       · subst h1; subst h2; subst h3; simp [hr, Gen.tcoordArgCheck] at hit
+
+/-- sample positions with a fractional part are refused -/
+theorem mkTcoordAF_fractional (ds : Rat → Rat) (name : Coded) (rt : String) (l : List Int) (off : Option (List Rat))
+    (dts : Option (List String)) (rel : Option String) : ∀ it, mkTcoordAF ds name rt (some l) true off dts rel ≠ .ok it := by
+  intro it hit
+  unfold mkTcoordAF at hit
+  cases hb : base .tcoord name rel with
+  | error e => simp only [hb] at hit; cases hit
+  | ok a =>
+    simp only [hb] at hit
+    cases hr : enumHas Gen.c13TemporalRangeTypes rt with
+    | false => simp [hr] at hit
+    | true =>
+      by_cases h1 : ((l.length : Int) == 0) = true <;> simp [hr, Gen.tcoordArgCheck, h1] at hit
 
 /-! ## NUM -/
 
